@@ -788,7 +788,9 @@ impl Writer for UperWriter {
 
     #[inline]
     fn write_null<C: null::Constraint>(&mut self, _value: &Null) -> Result<(), Self::Error> {
-        Ok(())
+        // no content, but the field has to be accounted for in an extensible sequence
+        self.write_bit_field_entry(false, true)?;
+        self.with_buffer(|_| Ok(()))
     }
 }
 
@@ -1493,7 +1495,9 @@ impl<B: ScopedBitRead> Reader for UperReader<B> {
 
     #[inline]
     fn read_null<C: null::Constraint>(&mut self) -> Result<Null, Self::Error> {
-        Ok(Null)
+        // no content, but the field has to be accounted for in an extensible sequence
+        let _ = self.read_bit_field_entry(false)?;
+        self.with_buffer(|_| Ok(Null))
     }
 }
 
